@@ -1060,7 +1060,14 @@ func c18e(c *Ctx) {
 			for i, a := range args {
 				m++
 				t := c.term(fn, a)
-				bad := t == "zero" || strings.HasPrefix(t, "with(zero;") || strings.Contains(t, "<token.Token>{})") && strings.HasPrefix(t, "mu(") && false
+				bad := t == "zero" || strings.HasPrefix(t, "with(zero;")
+				// ... or can be one: the alternatives of a merged token, also when a helper chose it
+				for _, dl := range c.deepLeaves(fn, a, 2) {
+					if dl.term == "zero" || strings.HasPrefix(dl.term, "with(zero;") {
+						bad = true
+						t = dl.term + " (one of the values of " + t + ")"
+					}
+				}
 				c.Check(!bad, fmt.Sprintf("%s/error-token#%d.%d", c.W.FuncKey(fn), m, i), c.W.Pos(call.Pos()), "error located at a real token", "an error is located at a synthesised / zero token ("+pretty(t)+"): it would point at line 0")
 			}
 		}
